@@ -42,7 +42,7 @@ h!(c16_mdhd_duration, 4, {
     }
     let b = snap::<32>(&mp4h::build_mdhd_box_with_timescale_and_duration(90000, d, None));
     assert!(be32(&b, 24) as u64 == d, "mdhd duration field holds the media duration");
-    kani::cover!(d > 1_000_000, "long recording");
+    crate::vcover!(d > 1_000_000, "long recording");
 });
 //@ prop=C16 tier=quick cost=30 fns="muxer::mp4::build_mdhd_box_with_timescale_and_duration" bound="all u64 media durations" unwind=4 expect=fail kf=KF-C16-mdhd-duration-wraps
 h!(c16_w_mdhd_duration, 4, {
@@ -62,7 +62,7 @@ h!(c16_cts_offset, 4, {
     }
     let t = mp4h::tables_from_samples([mp4h::mk_sample(pts, dts, data(1), true, None)], Vec::new(), 1, None);
     assert!(mp4h::t_cts_offsets(&t)[0] as i128 == diff, "composition offset = pts - dts");
-    kani::cover!(diff < 0, "negative offset");
+    crate::vcover!(diff < 0, "negative offset");
     core::mem::forget(t);
 });
 //@ prop=C16 tier=quick cost=60 fns="muxer::mp4::SampleTables::from_samples" bound="1 sample, all pts/dts < 2^63" unwind=4 expect=fail kf=KF-C16-cts-offset-wraps
@@ -87,7 +87,7 @@ h!(c16_tkhd_dims, 11, {
     let cfg = frag_cfg(w, hh);
     let f = snap::<92>(&fh::build_tkhd_fmp4(&cfg));
     assert!(be32(&f, 84) as u64 == (w as u64) << 16 && be32(&f, 88) as u64 == (hh as u64) << 16, "fragmented tkhd 16.16 dims exact");
-    kani::cover!(w == 0xffff, "largest representable width");
+    crate::vcover!(w == 0xffff, "largest representable width");
     core::mem::forget(cfg);
 });
 //@ prop=C16 tier=quick cost=30 fns="muxer::mp4::build_tkhd_box_with_id" bound="all u32 widths/heights" unwind=11 expect=fail kf=KF-C16-tkhd-dims-lose-high-bits
@@ -107,7 +107,7 @@ h!(c16_frag_entry_dims, 40, {
     let cfg = frag_cfg(w, hh);
     let b = snap::<105>(&fh::build_avc1_fmp4(&cfg));
     assert!(be16(&b, 32) as u32 == w && be16(&b, 34) as u32 == hh, "sample entry width/height exact");
-    kani::cover!(w > 4096, "large width");
+    crate::vcover!(w > 4096, "large width");
     core::mem::forget(cfg);
 });
 //@ prop=C16 tier=quick cost=60 fns="fragmented::build_avc1_fmp4" bound="all u32 widths/heights" unwind=40 expect=fail kf=KF-C16-fragmented-entry-dims-truncate
@@ -130,7 +130,7 @@ h!(c16_mp4a_rate, 12, {
     let b = snap::<75>(&mp4h::build_mp4a_box(&t));
     assert!(be32(&b, 32) as u64 == (rate as u64) << 16, "sample entry 16.16 rate exact");
     assert!(be16(&b, 24) == t.channels, "channel count exact");
-    kani::cover!(rate == 48000, "48 kHz");
+    crate::vcover!(rate == 48000, "48 kHz");
 });
 //@ prop=C16 tier=quick cost=60 fns="muxer::mp4::build_mp4a_box" bound="rates 88200 / 96000 / 192000" unwind=12 expect=fail kf=KF-C16-mp4a-rate-loses-high-bits
 h!(c16_w_mp4a_rate, 12, {
@@ -163,9 +163,9 @@ h!(c16_writer_delta_guard, 6, {
         let s0 = mp4h::video_sample_digest(&w, 0).unwrap();
         assert!(s0.duration.unwrap() as u128 == dts1 as u128 - dts0 as u128, "stored 32-bit duration is the exact gap");
     } else {
-        kani::cover!(dts1 > dts0, "gap beyond 32 bits is reported as an error");
+        crate::vcover!(dts1 > dts0, "gap beyond 32 bits is reported as an error");
     }
-    kani::cover!(r.is_ok(), "accepted");
+    crate::vcover!(r.is_ok(), "accepted");
     core::mem::forget((w, r));
 });
 
@@ -182,9 +182,9 @@ h!(c16_writer_audio_delta_guard, 6, {
         assert!(s0.duration.unwrap() as u128 == p1 as u128 - p0 as u128, "stored 32-bit audio duration is the exact gap");
         assert!(mp4h::writer_digest(&w).audio_last_delta.unwrap() as u128 == p1 as u128 - p0 as u128, "remembered last delta is the exact gap");
     } else {
-        kani::cover!(p1 > p0, "audio gap beyond 32 bits is reported as an error");
+        crate::vcover!(p1 > p0, "audio gap beyond 32 bits is reported as an error");
     }
-    kani::cover!(r.is_ok(), "accepted");
+    crate::vcover!(r.is_ok(), "accepted");
     core::mem::forget((w, r));
 });
 
@@ -206,7 +206,7 @@ h!(c16_trun_fields, 6, {
     assert!(be32(&v, 20) as u64 == d1 - d0, "first sample duration = DTS gap");
     assert!(be32(&v, 32) as i32 as i128 == p0 as i128 - d0 as i128, "first composition offset = pts - dts");
     assert!(be32(&v, 48) as i32 as i128 == p1 as i128 - d1 as i128, "second composition offset = pts - dts");
-    kani::cover!(p1 < d1, "negative offset");
+    crate::vcover!(p1 < d1, "negative offset");
 });
 //@ prop=C16 tier=quick cost=200 fns="fragmented::build_trun" bound="2 samples, all dts gaps" unwind=6 timeout=900 expect=fail kf=KF-C16-trun-duration-wraps
 h!(c16_w_trun_duration, 6, {
@@ -241,7 +241,7 @@ h!(c16_api_tick_saturation, 12, {
         assert!(t * 90000.0 < 18446744073709551616.0, "accepted timestamps must be representable in 64-bit ticks");
         assert!(s.pts != u64::MAX || t * 90000.0 >= 18446744073709549568.0, "tick is not a saturated stand-in");
     }
-    kani::cover!(r.is_ok() && t > 1.0e9, "accepted huge timestamp");
+    crate::vcover!(r.is_ok() && t > 1.0e9, "accepted huge timestamp");
     core::mem::forget((m, r));
 });
 //@ prop=C16 tier=quick cost=150 fns="api::Muxer::write_video" bound="first frame, pts >= 2e14 s" unwind=12 timeout=900 expect=fail kf=KF-C16-api-tick-saturates
